@@ -117,7 +117,7 @@ def judge(args):
     cfg = case["cfg"]
     tool = cfg["tool"]
     kind = case_kind(case)
-    exp_log = case["log"]
+    exp_log = tm.noneify(case["log"]) if tool in tm.NONE_TOOLS else case["log"]
     out = {"viol": [], "mach": [], "n": {}}
 
     def cnt(k, v=1):
@@ -172,7 +172,7 @@ def judge(args):
         # the shapes of the quantifier: list / iterator / async iterator, every callable flavour
         fault_kinds = ["exc", "typeerr"] if kind == "fault" else ["exc"]
         if tool == "sync":
-            flavours = [{"src": "cls", "call": c} for c in ("asyncdef", "def", "partial", "obj", "aw")]
+            flavours = [{"src": "cls", "call": c} for c in ("asyncdef", "def", "partial", "obj", "aw", "cls", "mixed", "mixed2")]
         elif tool == "any_iter":
             flavours = [{"src": f, "call": "asyncdef"} for f in ("cls", "agen", "list", "iter")]
     for fl in flavours:
@@ -329,7 +329,7 @@ def random_case(rnd, faults):
     b = lambda: rnd.random() < 0.5  # noqa: E731
     par, data = {"z": 0}, [seq([1])]
     if tool == "zip":
-        par, data = {"strict": b()}, [seq([1]) for _ in range(rnd.randint(0, 4))]
+        par, data = {"strict": b()}, [seq([1, 1, 1, 0]) for _ in range(rnd.randint(0, 4))]
     elif tool == "map":
         data = [seq([1]) for _ in range(rnd.randint(1, 3))]
     elif tool in ("filter", "filterfalse"):
@@ -390,6 +390,20 @@ def record_random(args):
     L = tm.load_lib()
     o = tm.execute(case, L, susp=rnd.choice([0, 1]))
     log = tm.lazy_projection(o.log) + ([{"ev": "close"}] if o.ending == "close" else [])
+    if case["cfg"]["tool"] in tm.NONE_TOOLS:     # None items back to what the spec calls them
+        from itertools import count  # noqa: PLC0415
+        ctr = {}
+
+        def back(v, where):
+            if v is None and where is not None:
+                return {"s": where[0], "p": where[1], "k": 0}
+            return v
+        # the j-th element of a yielded tuple comes from source j, position = number of yields so far
+        ny = 0
+        for e in log:
+            if e["ev"] == "yield":
+                ny += 1
+                e["v"] = [back(x, (j + 1, ny)) for j, x in enumerate(e["v"])]
     return {"cfg": case["cfg"], "log": log, "nnext": case["nnext"], "closes": case.get("closes"), "plan": case.get("plan"),
             "fault_fired": o.fault_fired, "exc_same": o.exc_same, "uses_after_fault": o.uses_after_fault, "ending": o.ending,
             "released": o.released, "states": o.states, "close_error": o.close_error, "started": o.started}
